@@ -139,7 +139,7 @@ def gen_case(rng: random.Random, i: int) -> dict:
         kind = "switch"
     case = {"clock": clock, "strategy": strat, "prog": prog, "cmds": cmds_for(rng, mode, init, n_p, u), "kind": kind}
     decorate(case, rng, i)
-    return case
+    return S.maybe_fail_construct(case, rng, i)
 
 
 LEVELS = [0, 10, 20, 30, 40, 50]
@@ -205,7 +205,7 @@ def oracle(case, obs, ctx, idx):
         return ("clock-not-an-exact-number", bad_clock), facts
     if obs.get("notes"):
         return ("simulator-did-not-come-to-rest", "; ".join(obs["notes"]) + f" (snapshots so far: {obs.get('snaps')})"), facts
-    why = S.representable(obs)
+    why = S.representable(obs, case)
     base = ctx[idx]
     if "error" in base:
         return ("driver-error", base["error"]), facts
@@ -235,7 +235,7 @@ def oracle(case, obs, ctx, idx):
                 seg_str[-1] = cur
         elif ent[0] == "cmd":
             c, r, rs, ps, clk = ent[1], ent[2], ent[3], ent[4], ent[5]
-            if r not in ("ok", "refused"):
+            if r not in ("ok", "refused") and not (c[0] == "init" and S.construct_fails(case)):
                 sig = "failing-step-escapes-as-unrelated-error" if c[0] == "step" else "command-raises-unrelated-error"
                 return (sig, f"{c} -> {r} (failing handlers: {sorted(failing_h)})"), facts
             fails_here = [k for k, e in enumerate(seg) if e[3] in failing_h]
@@ -293,7 +293,8 @@ def oracle(case, obs, ctx, idx):
     else:
         if tr != bt[:len(tr)]:
             return ("faulty-run-not-a-prefix-of-truncated-run", f"strategy {strat}: {tr[:14]} vs {bt[:14]}"), facts
-    if strat != "pause" and not has_switch and case["cmds"][1] == ["start"] and not ended and base["snaps"][-1][1] == "ENDED":
+    if strat != "pause" and not has_switch and not S.construct_fails(case) and case["cmds"][1] == ["start"] and not ended \
+            and base["snaps"][-1][1] == "ENDED":
         return ("continue-strategy-did-not-finish-the-run", f"state {obs['snaps'][1][1:3]} after start under {strat}"), facts
     if why is not None:
         return ("unexpected-observation", why), facts
